@@ -30,6 +30,7 @@ const (
 	c32FPKIndex       = "C32-patch-create-omits-pk-index"      // CREATE TABLE of a patch omits a secondary index whose columns are exactly the primary key
 	c32FRenamedNull   = "C32-patch-renamed-column-set-null"    // a row whose value in a renamed column becomes NULL gets no UPDATE (from_ values are matched to the target schema by column name)
 	c32FRenameDropIdx = "C32-patch-rename-table-drop-index"    // after RENAME TABLE the DROP INDEX statements still name the old table: error 1146
+	c32FDefaultNull   = "C32-patch-added-default-column-null"  // a column added with a DEFAULT: rows holding NULL in it at `to` get no UPDATE and keep the default
 	c32FRenameOnto    = "C32-patch-rename-onto-dropped-column" // RENAME COLUMN x TO y is emitted before DROP y: error "column already exists"
 	c32FColOrder      = "C32-patch-column-position"            // ADD COLUMN is emitted without FIRST/AFTER: the patched table has another column order than `to`
 )
@@ -134,6 +135,34 @@ func c32ShapeRenameOnto(from, to *hTable) bool {
 				if i := from.colIndex(tc.Name); i >= 0 && from.Cols[i].UID != tc.UID {
 					return true
 				}
+			}
+		}
+	}
+	return false
+}
+
+// c32ShapeDefaultNull: `to` has a new column with a DEFAULT and a row that also exists at
+// `from` holds NULL in it.
+func c32ShapeDefaultNull(from, to *hTable) bool {
+	if from == nil || to == nil {
+		return false
+	}
+	for j, tc := range to.Cols {
+		if !tc.Def {
+			continue
+		}
+		isNew := true
+		for _, fc := range from.Cols {
+			if fc.UID == tc.UID || (fc.Name == tc.Name && fc.Type == tc.Type) {
+				isNew = false
+			}
+		}
+		if !isNew {
+			continue
+		}
+		for k, tr := range to.Rows {
+			if _, ok := from.Rows[k]; ok && tr[j] == vsql.Null {
+				return true
 			}
 		}
 	}
@@ -454,7 +483,7 @@ func (c *c32Checker) pair(fi, ti int, opts c32Opts) {
 		if from != nil && to != nil && c32KeyCols(from) != c32KeyCols(to) {
 			continue // primary key set changed: dolt documents that no row diff is produced
 		}
-		if !c32SameSchema(from, to) {
+		if from != nil && to != nil && !c32SameSchemaText(from, to) {
 			schemaChange = true
 		}
 		q := fmt.Sprintf("SELECT * FROM dolt_diff('%s','%s','%s')", fc.Hash, tc.Hash, name)
@@ -753,7 +782,8 @@ func (c *c32Checker) patch(fi, ti int) {
 			}
 		}
 		if (c32ShapeDropIdxCol(from, to) && c32Excluded(c32FDropIdxCol)) || (c32ShapePKIndex(from, to) && c32Excluded(c32FPKIndex)) ||
-			(c32ShapeRenamedNull(from, to) && c32Excluded(c32FRenamedNull)) || (c32ShapeRenameOnto(from, to) && c32Excluded(c32FRenameOnto)) {
+			(c32ShapeRenamedNull(from, to) && c32Excluded(c32FRenamedNull)) || (c32ShapeRenameOnto(from, to) && c32Excluded(c32FRenameOnto)) ||
+			(c32ShapeDefaultNull(from, to) && c32Excluded(c32FDefaultNull)) {
 			c.st.excluded++
 			return
 		}
@@ -939,6 +969,18 @@ func c32Run(t *testing.T, rec *vh.Recorder, part string, quick, thorough int, cf
 		if st.escaped > 0 {
 			classes = append(classes, "value_needs_escaping")
 		}
+		if st.modified > 0 {
+			classes = append(classes, "rows_modified")
+		}
+		if st.added > 0 {
+			classes = append(classes, "rows_added_removed")
+		}
+		if st.renamePairs > 0 {
+			classes = append(classes, "diff_across_table_rename")
+		}
+		if st.patchStmt > 0 {
+			classes = append(classes, "patch_applied")
+		}
 		rec.Evals(st.evals)
 		rec.Excluded(st.excluded)
 		nontrivial := st.added > 0 && st.removed > 0 && st.modified > 0 && st.schemaPairs > 0 && st.escaped > 0
@@ -954,5 +996,5 @@ func TestVerif_C32(t *testing.T) {
 	)
 	defer rec.Write(t)
 	c32Run(t, rec, "pairs", 130, 220, hConfig{Types: hAllTypes, TablePool: []string{"t0", "t1", "t2"}, ColPool: []string{"c0", "c1", "c2", "c3", "c4"},
-		MaxCommits: 4, MaxEdits: 7, Indexes: true, StrPK: true, PKByName: true}, c32Opts{patch: true})
+		MaxCommits: 4, MaxEdits: 8, RowBoost: true, Indexes: true, StrPK: true, PKByName: true}, c32Opts{patch: true})
 }
